@@ -1,5 +1,7 @@
 import Fundraising.Proofs.C02Base
 import Fundraising.Proofs.AccountingProofs
+import Fundraising.Proofs.ProgressProofs
+import Fundraising.Proofs.WFProofs
 /-
   C02 — Operations are zero-sum and every participant ends with exactly their due.
   (Proofs: Proofs/LedgerProofs.lean, Proofs/C02Base.lean, Proofs/AccountingProofs.lean.)
@@ -86,5 +88,31 @@ theorem C02_ledger_shapes (ops : List Op) :
       (∃ i u, (t.src = .sell i ∨ t.src = .pay i ∨ t.src = .vest i) ∧ t.dst = .user u) ∨
       (∃ i, t.src = .pay i ∧ t.dst = .vest i) :=
   ledger_shapes ops
+
+/-- **everyone gets their due at a batch settlement**: in the block that settles auction `i`,
+    the coins leaving its selling and paying escrows are, in this order, exactly: each bidder's
+    allocation (the non-zero ones, ascending bidder order), the unsold rest of the selling escrow to
+    the auctioneer, each bidder's refund — by `calcBatchWith`, the reservation minus what the
+    allocation costs at the matched price, i.e. the unused part of the reservation — and the
+    proceeds (everything left in the paying escrow) to the auctioneer, or to the vesting escrow when
+    there is a schedule -/
+theorem C02_batch_settlement_pays_everyone (st : State) (h : Reach st) (t : Int)
+    (hok : (step st (.block t)).1.res = .ok)
+    (i : Nat) (v v' : AView) (mi : MInfo) (hv : st.core.views[i]? = some v)
+    (hv' : (step st (.block t)).2.core.views[i]? = some v')
+    (hs : v.a.status = .started) (hty : v.a.type = .batch)
+    (hmi : calcBatch v.a v.bids v.allowed = some mi) (hsettled : v'.a.status ≠ .started) :
+    ∃ rest proceeds,
+      (xfersOf (step st (.block t)).1.effs).filter (fun x => x.src = .sell i ∨ x.src = .pay i) =
+        ((mi.alloc.filter (fun p => p.2 ≠ 0)).map
+            (fun p => (⟨.io, .sell i, .user p.1, [⟨v.a.sellDenom, p.2⟩]⟩ : Transfer)))
+        ++ [⟨.send, .sell i, .user v.a.auctioneer, rest⟩]
+        ++ ((mi.refund.filter (fun p => p.2 ≠ 0)).map
+            (fun p => (⟨.io, .pay i, .user p.1, [⟨v.a.payDenom, p.2⟩]⟩ : Transfer)))
+        ++ [proceeds] ∧
+      proceeds.src = .pay i ∧
+      proceeds.dst = (if v.a.schedules.isEmpty then .user v.a.auctioneer else .vest i) :=
+  batch_settlement_transfers st t hok i v v' mi hv hv' hs hty
+    (fun j w hw => ((wf_reach st h).views j w hw).id) hmi hsettled
 
 end Fundraising
